@@ -851,6 +851,26 @@ def run_worker(sc, tmp):
         return {"worker_error": "unparsable worker output: " + p.stdout.decode(errors="replace")[-500:]}
 
 
+def minimise_split(sc, tmp, feat):
+    """Search (only after a split disagreement): the same definitions in two files, one definition set apart;
+    returns the first two-file layout on which the split package still differs from the single-file one."""
+    n = len(sc["defs"])
+    cands = [[("a.gql", [i]), ("sub/b.graphqls", [j for j in range(n) if j != i])] for i in range(n)][:16]
+    res = run_worker({**sc, "layouts": cands, "introspection": [], "noise": []}, tmp)
+    if "worker_error" in res or res["sources"]["single"]["error"]:
+        return None
+    sp = res["sources"]["single"]["package"]
+    for i, lay in enumerate(cands):
+        src = res["sources"][f"split{i}"]
+        if src["error"] or sorted(src["package"]) != sorted(sp):
+            return {"layout": lay, "why": src["error"] or "different files"}
+        for f in sp:
+            d = module_equal_modulo_order(sp[f], src["package"][f])
+            if d and not (d == "order" and feat["extensions"]):
+                return {"layout": lay, "why": f"{f}: {d}"}
+    return None
+
+
 def make_tls(tmp):
     crt, key = os.path.join(tmp, "c19.crt"), os.path.join(tmp, "c19.key")
     try:
@@ -900,6 +920,7 @@ def k_scenarios(ctx, var: Variants, tmp):
         sp = single["package"]
         run.nontrivial_case(("scenario", sc["seed"]))
         # ---------------- splits
+        nviol = len(run.violations)
         for li, layout in enumerate(sc["layouts"]):
             key = f"split{li}"
             run.count()
@@ -926,6 +947,11 @@ def k_scenarios(ctx, var: Variants, tmp):
             ld = res["loaded"].get(key)
             if isinstance(ld, list) and len(ld) != len(sc["defs"]):
                 run.broken("K2 parse(join) definitions", f"{len(ld)} definitions loaded, {len(sc['defs'])} written ({sc['seed']})")
+        if len(run.violations) > nviol and run.extra.get("minimised", 0) < 3:
+            run.extra["minimised"] = run.extra.get("minimised", 0) + 1
+            m = minimise_split(sc, tmp, feat)
+            for v in run.violations[nviol:]:
+                v["replay"]["minimised_two_file_layout"] = m
         # ---------------- introspection
         intro_ok = None
         for req in res["requests"]:
@@ -1156,7 +1182,11 @@ def run(ctx):
     finally:
         shutil.rmtree(tmp, ignore_errors=True)
     # concrete failing inputs first (the report prints a bounded number of VIOLATION lines)
-    run.violations.sort(key=lambda v: not v["found_input"])
+    seen_kind: dict = {}
+    for v in run.violations:
+        k = (v["found_input"], v["what"][:22])
+        v["_rank"] = seen_kind[k] = seen_kind.get(k, -1) + 1
+    run.violations.sort(key=lambda v: (not v["found_input"], v.pop("_rank")))   # one of each kind first
     for flag, seen in var.seen.items():
         if len(seen) > 1:
             run.broken("model variants", f"the code follows the patched model on some inputs and the unpatched one on others ({flag})")
